@@ -131,7 +131,7 @@ func (s *sim) runMethod(method string, during []Step) error {
 	var cmds []kdisruption.Command
 	var budgets map[string]int
 	errS, panicked := s.guarded(during, func() error {
-		ctx := s.dctx()
+		ctx := s.frameCtx(s.dctx()) // C18: Method{value:"cancelled"|"deadline", d:k} runs the method under an expiring context
 		cs, totals, e := kdisruption.GetCandidatesWithTotals(ctx, s.cluster, s.w.Client, s.w.Rec, s.w.Clock, s.w.Prov, m.ShouldDisrupt, m.Class(), s.queue, s.cost)
 		s.w.Emit(trace.M{"e": "Cands", "mode": "method", "method": method, "class": m.Class(), "names": candNames(cs)})
 		if e != nil || len(cs) == 0 {
@@ -249,6 +249,7 @@ func (s *sim) step(st Step) error {
 		}
 		defer w.ClearFaults()
 	}
+	s.frame().mode, s.frame().polls = st.Value, st.D // C18 (x_frame.go): context mode of a Method step
 	switch st.A {
 	case "Method":
 		return s.runMethod(st.Method, st.During)
